@@ -1,5 +1,6 @@
 """Shared helpers for the lexer/parser properties (C02, C11, C17, C12): real lexer/parser adapters, model requests."""
 import random
+import re
 
 import grammar
 from gen import mibgen
@@ -84,4 +85,141 @@ def decl_names(ast_json):
             else:
                 names.append(s(d['t'][1]))
         out.append((s(mod['t'][0]), names))
+    return out
+
+
+# ------------------------------------------------------------------------------------------------------------------
+# ground truth for the tree: what the clauses of each generated declaration must look like in the parser's result
+
+def plain(x):
+    """canonical JSON form of a tree -> Python values (tuples stay tuples, lists lists, strings str)"""
+    if isinstance(x, dict):
+        if 's' in x:
+            return ''.join(map(chr, x['s']))
+        if 't' in x:
+            return tuple(plain(v) for v in x['t'])
+        if 'l' in x:
+            return [plain(v) for v in x['l']]
+        if 'd' in x:
+            return [(plain(k), plain(v)) for k, v in x['d']]
+        return {k: plain(v) for k, v in x.items()}
+    return x
+
+
+def _num(v):
+    """numbers inside constraints may be written as hex / binary strings; the tree keeps the literal"""
+    if isinstance(v, str):
+        m = re.fullmatch(r"'([0-9a-fA-F]*)'[hH]", v)
+        if m:
+            return int(m.group(1) or '0', 16)
+        m = re.fullmatch(r"'([01]*)'[bB]", v)
+        if m:
+            return int(m.group(1) or '0', 2)
+    return v
+
+
+def _oid(parts):
+    out = []
+    for p in parts:
+        if p[0] == 'ref':
+            out.append(p[1])
+        elif p[0] == 'num':
+            out.append(p[1])
+        else:
+            out.append((p[1], p[2]))
+    return out
+
+
+def _opt(tag, v):
+    return (tag, v) if v else None
+
+
+def _find(tree, tag):
+    """first sub-tuple of `tree` whose head is `tag` (depth first)"""
+    if isinstance(tree, tuple):
+        if tree and tree[0] == tag:
+            return tree
+        for v in tree:
+            r = _find(v, tag)
+            if r is not None:
+                return r
+    return None
+
+
+def structure_diffs(m, mod):
+    """compare the tree of one module (plain form) with the generator's record of what it printed: import lists,
+    OID values with their name(number) labels, status / access / units / reference / description arguments, revision
+    lists, OBJECTS / NOTIFICATIONS / INDEX / AUGMENTS, MODULE clauses of compliances, enumerations, BITS, range and
+    size lists, SEQUENCE members - every list in the order written.  Returns a list of differences."""
+    out = []
+    imports = [(frm, list(syms)) for frm, syms in m['imports'].items()]
+    got_imports = mod[2] if mod[2] else []
+    if isinstance(got_imports, tuple):
+        got_imports = list(got_imports)
+    if [(a, list(b)) for a, b in got_imports] != imports:
+        out.append('IMPORTS %r, written %r' % (got_imports, imports))
+    tree = {}
+    for d in mod[3] or []:
+        if d is not None:
+            tree.setdefault(d[1], d)
+    for gd in m['decls']:
+        d = tree.get(gd['name'])
+        if d is None:
+            continue
+        k = gd['kind']
+
+        def want(what, got, exp):
+            if got != exp:
+                out.append('%s %s: tree has %r, written %r' % (gd['name'], what, got, exp))
+        if 'oidparts' in gd:
+            want('OID value', d[-1], ('objectIdentifier', _oid(gd['oidparts'])))
+        if k == 'moduleIdentity':
+            want('LAST-UPDATED', d[2], ('LAST-UPDATED', gd['lastUpdated']))
+            want('ORGANIZATION', d[3], ('ORGANIZATION', gd['organization']))
+            want('CONTACT-INFO', d[4], ('CONTACT-INFO', gd['contact']))
+            want('DESCRIPTION', d[5], ('DESCRIPTION', gd['description']))
+            want('REVISION list', d[6], _opt('Revisions', [(a, ('DESCRIPTION', b)) for a, b in gd['revisions']]))
+        elif k == 'objectIdentity':
+            want('STATUS', d[2], ('Status', gd['status']))
+            want('DESCRIPTION', d[3], ('DESCRIPTION', gd['description']))
+            want('REFERENCE', d[4], _opt('REFERENCE', gd['reference']))
+        elif k == 'notificationType':
+            want('OBJECTS', d[2], ('Objects', [o['name'] for o in gd['objects']]) if gd['objects'] else [])
+            want('STATUS', d[3], ('Status', gd['status']))
+            want('DESCRIPTION', d[4], ('DESCRIPTION', gd['description']))
+        elif k in ('objectGroup', 'notificationGroup'):
+            tag = 'Objects' if k == 'objectGroup' else 'Notifications'
+            want(tag.upper(), d[2], (tag, [o['name'] for o in gd['objects']]))
+            want('STATUS', d[3], ('Status', gd['status']))
+            want('DESCRIPTION', d[4], ('DESCRIPTION', gd['description']))
+        elif k == 'moduleCompliance':
+            want('STATUS', d[2], ('Status', gd['status']))
+            want('DESCRIPTION', d[3], ('DESCRIPTION', gd['description']))
+            want('MODULE clauses', d[5], ('ComplianceModules', [(cl['module'], [g['name'] for g in cl['mandatory']] + [g['name'] for g in cl['conditional']])
+                                                               for cl in gd['clauses']]))
+        elif k == 'objectType':
+            want('UNITS', d[3], _opt('UNITS', gd['units']))
+            want('MAX-ACCESS', d[4], ('MaxAccessPart', gd['access']))
+            want('STATUS', d[5], ('Status', gd['status']))
+            want('DESCRIPTION', d[6], ('DESCRIPTION', gd['description']))
+            want('REFERENCE', d[7], _opt('REFERENCE', gd['reference']))
+            want('AUGMENTS', d[8], gd.get('augments') or None)
+            want('INDEX', d[9], _opt('INDEX', [(1 if i['implied'] else 0, i['name']) for i in gd.get('index') or []]))
+        elif k == 'sequenceDecl':
+            seq = _find(d, 'SEQUENCE')
+            want('SEQUENCE members', seq and [tuple(x) for x in seq[1]], [tuple(x) for x in gd['fields']])
+        sx = gd.get('syntax')
+        if isinstance(sx, dict):
+            if 'enum' in sx:
+                e = _find(d, 'enumSpec')
+                want('enumeration', e and e[1], [tuple(x) for x in sx['enum']])
+            if 'bits' in sx:
+                e = _find(d, 'BITS')
+                want('BITS', e and e[1], [tuple(x) for x in sx['bits']])
+            if 'ranges' in sx:
+                e = _find(d, 'integerSubType')
+                want('range list', e and [tuple(_num(v) for v in r) for r in e[1]], [tuple(r) for r in sx['ranges']])
+            if 'sizes' in sx:
+                e = _find(d, 'octetStringSubType')
+                want('SIZE list', e and [tuple(_num(v) for v in r) for r in e[1]], [tuple(r) for r in sx['sizes']])
     return out
